@@ -266,6 +266,25 @@ fn c17_board_game(ctx: &Ctx, l: &mut Local, root: &Pos, path: &[Mv], seed: u64, 
             }
         }
     }
+    // unregister and undo everything, newest first: every count on the way back must be the true multiplicity
+    let mut k = i;
+    while let Some((prev, em)) = stack.pop() {
+        match par::guarded(|| b.uncount_current_position()) {
+            Err(msg) => { ctx.violation(&format!("c17:panic:{}", par::last_panic_location()), &format!("unregistering {} (ply {} of {}) panicked: {}", p.to_fen(), k, tagname, msg), replay(k)); return; }
+            Ok(_) => {}
+        }
+        *multiset.get_mut(&p.key()).unwrap() -= 1;
+        b.toggle_turn(); em.undo(&mut b).ok();
+        p = prev; k -= 1;
+        l.inc("registrations_taken_back_at_the_end");
+        let want = *multiset.get(&p.key()).unwrap_or(&0) as u64;
+        let got = b.max_seen_position_count() as u64;
+        if want >= 1 && got != want { ctx.violation("c17:count-wrong-after-unregister-and-undo", &format!("after unregistering and undoing back to {} (ply {} of {}) max_seen reports {}, multiplicity is {}", p.to_fen(), k, tagname, got, want), replay(k)); return; }
+    }
+    // and register the root once more: it must count on from where it was
+    let again = b.count_current_position() as u64;
+    let want = *multiset.get(&p.key()).unwrap_or(&0) as u64 + 1;
+    if again != want { ctx.violation("c17:count-wrong-after-full-take-back", &format!("after taking the whole game back, registering {} again reports {}, expected {}", p.to_fen(), again, want), replay(0)); return; }
     l.inc("board_level_games");
     if path.len() >= 2 { l.distinct.push(hash_bytes(path_str(root, path).join(" ").as_bytes()) ^ seed); }
 }
